@@ -20,10 +20,13 @@ func keyEmuAxes(big bool) []AxisDesc {
 		{Name: "ABS_RY", Type: "key", Note: 64, NoteNeg: -1, Flip: true, Min: -128, Max: 127, Deadzone: 0,
 			Pos: []int32{-128, -64, -63, -62, 0, 62, 63, 64, 127}},
 	}
+	// one-sided (unsigned) stick, re-centred by key emulation
+	ax = append(ax, AxisDesc{Name: "ABS_Z", Type: "key", Note: 70, NoteNeg: 50, Min: 0, Max: 255, Deadzone: 0,
+		Pos: []int32{0, 63, 64, 65, 127, 189, 191, 192, 255}})
 	if big {
-		// one-sided (unsigned) stick, re-centred by key emulation
-		ax = append(ax, AxisDesc{Name: "ABS_Z", Type: "key", Note: 70, NoteNeg: 50, Min: 0, Max: 255, Deadzone: 0,
-			Pos: []int32{0, 63, 64, 65, 127, 189, 191, 192, 255}})
+		// 16-bit stick: neighbouring positions a fraction of a MIDI step apart on both sides of the 50 % / 49 % thresholds
+		ax = append(ax, AxisDesc{Name: "ABS_RX", Type: "key", Note: 66, NoteNeg: 54, Min: -32768, Max: 32767, Deadzone: 0,
+			Pos: []int32{-32768, -16400, -16300, -16040, 0, 16040, 16200, 16300, 16400, 32767}})
 	}
 	return ax
 }
@@ -32,9 +35,9 @@ func keyEmuAxes(big bool) []AxisDesc {
 // without it the alphabet is the one of C08 (octave/semitone/channel actions).
 func keyEmuScenarios(big, withMapping bool) []*Desc {
 	var out []*Desc
-	variants := []string{"hat", "stick"}
+	variants := []string{"hat", "stick", "unsigned"} // one axis per scenario: each runs to its fixpoint
 	if big {
-		variants = append(variants, "unsigned") // one axis per scenario: each runs to its fixpoint
+		variants = append(variants, "stick16")
 	}
 	for _, variant := range variants {
 		d := base("keyemu-"+variant, "interrupt")
@@ -45,8 +48,10 @@ func keyEmuScenarios(big, withMapping bool) []*Desc {
 			ax = all[:1]
 		case "stick":
 			ax = all[1:2]
-		default:
+		case "unsigned":
 			ax = all[2:3]
+		default:
+			ax = all[3:4]
 		}
 		d.Mappings = []MapDesc{{Name: "M0", Keys: km{K1: {60, 0}}, Axes: ax}}
 		if withMapping {
@@ -196,8 +201,10 @@ func (k *keyEmu) Step(c *StepCtx) {
 		turnOff(pk, true)
 		turnOff(nk, true)
 	case band:
-		turnOff(pk, false)
-		turnOff(nk, false)
+		// hysteresis band (49-50 %) of ONE direction: that direction's note may stay or go; the opposite
+		// direction's deflection is far below 49 %, its note must be off
+		turnOff(pk, v.Sign() < 0)
+		turnOff(nk, v.Sign() > 0)
 	}
 	got := semList(c.Msgs)
 	need := append(append([]string{}, mustOn...), mustOff...)
